@@ -137,6 +137,9 @@ pub struct Login {
     pub m1: Option<[u8; 20]>,
     pub m2: Option<[u8; 20]>,
     pub base_negative: bool,
+    /// u = H(A|B) and the client's x, 20 bytes little-endian each
+    pub u: [u8; 20],
+    pub x: [u8; 20],
 }
 
 /// Reference login with the built-in group. `reg_*` are the registered (normalised) credentials,
@@ -159,9 +162,11 @@ pub fn login(
     let a_pub = client_public(&aa, G, &n);
     let b_pub_le = b_pub.to_le_padded::<32>();
     let a_pub_le = a_pub.to_le_padded::<32>();
-    let u = U::from_le_bytes(&u_bytes(&a_pub_le, &b_pub_le));
+    let u_arr = u_bytes(&a_pub_le, &b_pub_le);
+    let u = U::from_le_bytes(&u_arr);
     let ss = server_s(&a_pub, &v, &u, &bb, &n);
-    let x = U::from_le_bytes(&x_bytes(typed_user, typed_pass, salt));
+    let x_arr = x_bytes(typed_user, typed_pass, salt);
+    let x = U::from_le_bytes(&x_arr);
     let sc = client_s(&b_pub, &x, &aa, &u, G, &n);
     let s_server = ss.to_le_padded::<32>();
     let s_client = sc.to_le_padded::<32>();
@@ -181,5 +186,7 @@ pub fn login(
         m1: m1v,
         m2: m2v,
         base_negative: client_base_negative(&b_pub, &x, G, &n),
+        u: u_arr,
+        x: x_arr,
     }
 }
